@@ -1,6 +1,6 @@
 (* C14: pause, closed markets and emergency shutdown.  Statements only. *)
 From MP.Model Require Import Prelude U128 SInt Feed Vamm VammOps Token World Engine Runtime.
-From MP.Proofs Require Import Tactics EngineGuards.
+From MP.Proofs Require Import Tactics EngineGuards StepFacts.
 
 Theorem C14_paused_open : forall w t v s m l lim f, e_pause (es (w_eng w)) = true -> e_open_position w t v s m l lim f = Err EGuard.
 Proof. exact open_paused. Qed.
@@ -55,3 +55,38 @@ Print Assumptions C14_closed_swap_output.
 Theorem C14_closed_settle_funding : forall v e s o, v_open (vs v) = false -> settle_funding v e s o = Err EGuard.
 Proof. exact settle_funding_closed. Qed.
 Print Assumptions C14_closed_settle_funding.
+
+(* TRANSACTION LEVEL.  While the engine is paused, an OpenPosition / ClosePosition / DepositMargin /
+   WithdrawMargin transaction - with any funds attached, for any fault index - fails and returns the very
+   same world. *)
+Theorem C14_paused_open_tx : forall f w t v s m l lim funds, e_pause (es (w_eng w)) = true ->
+  step_f f w (OEngine t (EOpenPosition v s m l lim) funds) = (w, false).
+Proof. exact paused_open_tx. Qed.
+Print Assumptions C14_paused_open_tx.
+Theorem C14_paused_close_tx : forall f w t v lim funds, e_pause (es (w_eng w)) = true ->
+  step_f f w (OEngine t (EClosePosition v lim) funds) = (w, false).
+Proof. exact paused_close_tx. Qed.
+Print Assumptions C14_paused_close_tx.
+Theorem C14_paused_deposit_tx : forall f w t v a funds, e_pause (es (w_eng w)) = true ->
+  step_f f w (OEngine t (EDepositMargin v a) funds) = (w, false).
+Proof. exact paused_deposit_tx. Qed.
+Print Assumptions C14_paused_deposit_tx.
+Theorem C14_paused_withdraw_tx : forall f w t v a funds, e_pause (es (w_eng w)) = true ->
+  step_f f w (OEngine t (EWithdrawMargin v a) funds) = (w, false).
+Proof. exact paused_withdraw_tx. Qed.
+Print Assumptions C14_paused_withdraw_tx.
+
+(* on a vAMM that is not registered with the insurance fund or not open, OpenPosition / WithdrawMargin /
+   PayFunding transactions fail and return the very same world *)
+Theorem C14_no_vamm_open_tx : forall f w t v s m l lim funds, require_vamm w v <> Ok tt ->
+  step_f f w (OEngine t (EOpenPosition v s m l lim) funds) = (w, false).
+Proof. exact no_vamm_open_tx. Qed.
+Print Assumptions C14_no_vamm_open_tx.
+Theorem C14_no_vamm_withdraw_tx : forall f w t v a funds, require_vamm w v <> Ok tt ->
+  step_f f w (OEngine t (EWithdrawMargin v a) funds) = (w, false).
+Proof. exact no_vamm_withdraw_tx. Qed.
+Print Assumptions C14_no_vamm_withdraw_tx.
+Theorem C14_no_vamm_pay_funding_tx : forall f w s v funds, require_vamm w v <> Ok tt ->
+  step_f f w (OEngine s (EPayFunding v) funds) = (w, false).
+Proof. exact no_vamm_pay_funding_tx. Qed.
+Print Assumptions C14_no_vamm_pay_funding_tx.
